@@ -50,6 +50,26 @@ class B:
     def twin(self):
         return B2(self.n)
 
+    @property
+    def parts(self):
+        """a generator with a clean-up clause that constructs a @symbol object: user code that the library runs while it
+        finalises an abandoned evaluation"""
+        try:
+            for k in range(3):
+                yield 10 * self.n + k
+        finally:
+            CLEANUPS.append(B2(self.n))
+
+
+CLEANUPS = []
+
+
+class NoTruth:
+    """a value without a truth value (like a numpy array): a term constrained by it fails while it is being built"""
+
+    def __bool__(self):
+        raise ValueError("no truth value")
+
 
 @predicate
 def pos(x):
@@ -103,7 +123,7 @@ def floors(tier):
     return {"distinct_nontrivial": 800, "observations": 20000, "op:enter_q": 500, "op:enter_r": 500, "op:enter_rq": 300,
             "op:enter_qq": 300, "op:with_query": 300, "op:leave": 1000, "op:raise_leave": 300, "op:mkit": 1000,
             "op:next": 1000, "op:close": 300, "op:drop": 300, "op:exhaust": 300, "op:the_eval": 500, "op:an_list": 500, "op:an_raise": 300, "op:the_multi_sub": 300, "op:an_plain_method": 300, "op:block_term_then_rule": 300,
-            "op:reenter_open_query": 300, "op:an_many_rows": 200, "cls:blocks_nested_four_or_five_deep_reopened_under_another_outer_block": 300, "thread_probes": 3000, "generator_domain_probes": 300,
+            "op:reenter_open_query": 300, "op:an_many_rows": 200, "op:mkit_flat": 300, "cleanup_probes": 200, "cls:term_build_raised_inside_a_block": 500, "cls:blocks_nested_four_or_five_deep_reopened_under_another_outer_block": 300, "thread_probes": 3000, "generator_domain_probes": 300,
             "cls:iterator_op_at_other_depth": 800}
 
 
@@ -126,7 +146,7 @@ def cases(spec, ctx):
             yield {"ops": ops, "deep": True}
             continue
         for _ in range(rng.randint(6, 16)):
-            extra_ops = ["the_eval", "an_list", "an_raise", "the_multi_sub", "an_plain_method", "block_term_then_rule"]
+            extra_ops = ["the_eval", "an_list", "an_raise", "the_multi_sub", "an_plain_method", "block_term_then_rule", "term_build_raises"]
             if rng.random() < 0.04:
                 extra_ops = extra_ops + ["an_many_rows"] * 6
             choices = ["mkit"] + extra_ops if live < 3 else list(extra_ops)
@@ -145,8 +165,8 @@ def cases(spec, ctx):
                 ops.append([op])
             elif op == "mkit":
                 live += 1
-                ops.append([op])
-            elif op in ("the_eval", "an_list", "an_raise", "the_multi_sub", "an_plain_method", "block_term_then_rule", "an_many_rows"):
+                ops.append([op] if rng.random() < 0.7 else ["mkit_flat"])
+            elif op in ("the_eval", "an_list", "an_raise", "the_multi_sub", "an_plain_method", "block_term_then_rule", "an_many_rows", "term_build_raises"):
                 ops.append([op])
             else:
                 idx = rng.randrange(live)
@@ -404,8 +424,25 @@ def check_case(case, ctx):
                     cm.__exit__(Boom, e, None)
                 except Boom:
                     pass
+            elif name == "term_build_raises":
+                # a constrained term whose construction fails (the value has no truth value), handled at the current nesting:
+                # the innermost block keeps its mode
+                from entity_query_language import From
+                if ref_mode() is not None:
+                    try:
+                        B(From(bs), n=NoTruth())
+                        ctx.cls("cls:term_build_did_not_raise")
+                    except ValueError:
+                        ctx.cls("cls:term_build_raised_inside_a_block")
             elif name == "mkit":
-                its.append([mkq().evaluate(), len(stack)])
+                its.append([mkq().evaluate(), len(stack), B])
+            elif name == "mkit_flat":
+                # results are the elements of a generator property whose clean-up clause constructs a @symbol object
+                from entity_query_language import flatten
+                with symbolic_mode():
+                    xf = let(B, bs)
+                    fq = an(entity(flatten(xf.parts), xf.n > 0))
+                its.append([fq.evaluate(), len(stack), int])
             else:
                 ent = its[op[1] % len(its)]
                 if ent[1] != len(stack):
@@ -413,7 +450,7 @@ def check_case(case, ctx):
                 if name == "next":
                     try:
                         o = next(ent[0])
-                        if type(o) is not B:
+                        if type(o) is not ent[2]:
                             fail = {"what": "RESULT_NOT_A_REAL_INSTANCE", "observed": type(o).__name__}
                     except StopIteration:
                         pass
@@ -429,10 +466,16 @@ def check_case(case, ctx):
                 elif name == "exhaust":
                     its.remove(ent)
                     for o in ent[0]:
-                        if type(o) is not B:
+                        if type(o) is not ent[2]:
                             fail = {"what": "RESULT_NOT_A_REAL_INSTANCE", "observed": type(o).__name__}
             if name in OPS_ENTER:
                 tops.append(SymbolicExpression._current_parent_() if stack[-1][1] else None)
+            if CLEANUPS:
+                ctx.count("cleanup_probes", len(CLEANUPS))
+                if any(type(c_) is not B2 for c_ in CLEANUPS) and not fail:
+                    fail = {"what": "USER_CLEANUP_CODE_SAW_SYMBOLIC_MODE_WHILE_AN_EVALUATION_WAS_FINALISED",
+                            "observed": sorted({type(c_).__name__ for c_ in CLEANUPS})}
+                CLEANUPS.clear()
             fail = fail or observe(step, name)
             if fail:
                 fail.update({"step": step, "op": op})
@@ -446,6 +489,7 @@ def check_case(case, ctx):
                 pass
         its.clear()
         gc.collect()
+        CLEANUPS.clear()
     if not fail:
         if _symbolic_mode.get() is not None or SymbolicExpression._symbolic_expression_stack_:
             fail = {"what": "STATE_AFTER_ALL_BLOCKS_LEFT", "mode": repr(_symbolic_mode.get()),
